@@ -376,6 +376,24 @@ Theorem C01_add_new_pop_then_budget_drops_refuted :
 Proof. exact AddNewBatchProofs.add_new_pop_then_budget_drops. Qed.
 Print Assumptions C01_add_new_pop_then_budget_drops_refuted.
 
+(* ... and that is what every call with 0 < budget < |staged| does with that operand order:
+   exactly one description (the one after the budgeted n) is lost and new_tasks_count_ stays one
+   too high (the runtime signature of seed c01d: staged count stuck, tasks that never run). *)
+Theorem C01_add_new_pop_then_budget_loses_one :
+  forall (D : Type) (sh : GenAddNew.add_new_shape),
+    sh = GenAddNew.tq_add_new \/ sh = GenAddNew.mc_add_new ->
+    forall (budget : Z) (staged : list D) (s : AddNewBatch.bst D),
+      AddNewBatch.b_count s = Z.of_nat (length staged) ->
+      (0 < budget < Z.of_nat (length staged))%Z ->
+      let n := Z.to_nat budget in
+      let r := AddNewBatch.add_new (AddNewBatch.swap_order sh) budget staged s in
+      fst r = skipn (S n) staged /\
+      AddNewBatch.b_pending (snd r) = AddNewBatch.b_pending s ++ firstn n staged /\
+      S (length (AddNewBatch.b_pending (snd r) ++ fst r)) = length (AddNewBatch.b_pending s ++ staged) /\
+      AddNewBatch.b_count (snd r) = (Z.of_nat (length (fst r)) + 1)%Z.
+Proof. exact (@AddNewBatchProofs.add_new_pop_then_budget_loses_one). Qed.
+Print Assumptions C01_add_new_pop_then_budget_loses_one.
+
 (* non-vacuity: a batch of 64 out of 70 staged descriptions through thread_queue_mc::add_new, and
    an unbudgeted (-1) batch through thread_queue::add_new *)
 Example C01_example_add_new_batch :
